@@ -19,7 +19,7 @@ Inductive aerr :=
 | ErrArg (e : actx_err)       (* computing an argument context failed *)
 | ErrHash (r : hres)          (* hashing a tracked variable / the source lines failed *)
 | ErrAssertCtx                (* AssertionError: unknown arguments and no call-site context (root call) *)
-| ErrAssertDep (p : bytes)    (* AssertionError: Missing dep <p> *)
+| ErrLoadBeforeStore (p : bytes)   (* DDSException LOAD_BEFORE_STORE: <p> is loaded before it is produced *)
 | ErrEmpty.                   (* dds_hash_commut of an empty list (cannot happen: body_sig is always present) *)
 
 Definition resolved := list (bytes * bytes).    (* gctx.resolved_references: path -> signature *)
@@ -37,6 +37,7 @@ Definition argctx := (list (bytes * option bytes) * option bytes)%type.   (* nam
 Definition k_body_sig : bytes := bs c_key_body_sig.
 Definition k_fun_input : bytes := bs c_key_fun_input.
 Definition k_fun_inter : bytes := bs c_key_fun_inter.
+Definition k_fun_deps : bytes := bs c_key_fun_deps.
 Definition k_arg_context : bytes := bs c_key_arg_context.
 Definition k_arg (n : bytes) : bytes := bs c_key_arg_prefix ++ n.
 Definition k_dep (p : bytes) : bytes := bs c_key_dep_prefix ++ p.
@@ -88,31 +89,28 @@ Section Analysis.
   Definition empty_list_hash : bytes := H [].     (* dds_hash([]) *)
 
   (* the call-site context covers the source up to max(lineno + 1, end_lineno) (fix of F01) *)
-  Definition call_ctx (lines : list bytes) (line eline : nat) (input_sig : bytes) (inters : list fi) : aerr + bytes :=
+  (* loads : the paths loaded so far in this body with the signature found there when loaded (an OrderedDict:
+     first position, last value) *)
+  Definition dep_pairs (loads : list (bytes * bytes)) : list (bytes * bytes) :=
+    map (fun ps => (k_dep (fst ps), snd ps)) loads.
+
+  Definition call_ctx (lines : list bytes) (line eline : nat) (input_sig : bytes) (inters : list fi)
+             (loads : list (bytes * bytes)) : aerr + bytes :=
     match hash_lines (firstn (Nat.max (S line) eline) lines) with
     | inl e => inl e
     | inr bh =>
       let inter := match X (fis_siglist inters) with Some ih => [(k_fun_inter, ih)] | None => [] end in
-      match X ([(k_body_sig, bh); (k_fun_input, input_sig)] ++ inter) with
+      let deps := match X (dep_pairs loads) with Some dh => [(k_fun_deps, dh)] | None => [] end in
+      match X ([(k_body_sig, bh); (k_fun_input, input_sig)] ++ inter ++ deps) with
       | Some c => inr c
       | None => inl ErrEmpty
-      end
-    end.
-
-  Fixpoint deps_of (R : resolved) (ps : list bytes) : aerr + list (bytes * bytes) :=
-    match ps with
-    | [] => inr []
-    | p :: r =>
-      match rlookup p R with
-      | None => inl (ErrAssertDep p)
-      | Some s => match deps_of R r with inr l => inr ((k_dep p, s) :: l) | inl e => inl e end
       end
     end.
 
   Definition callee_ctx_plain (g : fn) : actx_err + list (bytes * option bytes) :=
     arg_ctx_ast H maxlen (fn_params g) 0 [] [].
 
-  Definition st3 := (list fi * list bytes * resolved)%type.
+  Definition st3 := (list fi * list (bytes * bytes) * resolved)%type.
 
   Fixpoint ana (f : fn) (A : argctx) (R : resolved) {struct f} : aerr + (fi * resolved) :=
     match f with
@@ -171,17 +169,12 @@ Section Analysis.
           match ana_steps sts lines input_sig ([], [], R) with
           | inl e => inl e
           | inr (inters, loads, R') =>
-            let dl := dedup [] loads in
-            match deps_of R' dl with
+            match hash_lines lines with
             | inl e => inl e
-            | inr dp =>
-              match hash_lines lines with
-              | inl e => inl e
-              | inr bsig =>
-                match X ([(k_body_sig, bsig)] ++ ap ++ dp ++ fis_siglist inters ++ ep ++ vp) with
-                | None => inl ErrEmpty
-                | Some s => inr (FI s annot name (List.length (fst A)) dl inters, R')
-                end
+            | inr bsig =>
+              match X ([(k_body_sig, bsig)] ++ ap ++ dep_pairs loads ++ fis_siglist inters ++ ep ++ vp) with
+              | None => inl ErrEmpty
+              | Some s => inr (FI s annot name (List.length (fst A)) (map fst loads) inters, R')
               end
             end
           end
@@ -200,7 +193,7 @@ Section Analysis.
   with ana_step (s : step) (lines : list bytes) (input_sig : bytes) (acc : st3) {struct s} : aerr + st3 :=
     let '(inters, loads, R) := acc in
     let ana_plain_call (g : fn) (lines : list bytes) (line eline : nat) (input_sig : bytes) (acc : st3) : aerr + st3 :=
-      match call_ctx lines line eline input_sig inters with
+      match call_ctx lines line eline input_sig inters loads with
       | inl e => inl e
       | inr c =>
         match callee_ctx_plain g with
@@ -213,12 +206,17 @@ Section Analysis.
         end
       end in
     match s with
-    | SLoad p => inr (inters, loads ++ [p], R)
+    | SLoad p =>
+      (* the path must have been produced before this point: by the store or earlier in this evaluation *)
+      match rlookup p R with
+      | None => inl (ErrLoadBeforeStore p)
+      | Some sg => inr (inters, rupdate p sg loads, R)
+      end
     | SApply _ => inr acc
     | SCall line eline g _ => ana_plain_call g lines line eline input_sig acc
     | SRef line g _ => ana_plain_call g lines line line input_sig acc
     | SKeep line eline p g pos kw =>
-      match call_ctx lines line eline input_sig inters with
+      match call_ctx lines line eline input_sig inters loads with
       | inl e => inl e
       | inr c =>
         match arg_ctx_ast H maxlen (fn_params g) 0 (map snd pos) (map (fun nk => (fst nk, snd (snd nk))) kw) with
@@ -226,7 +224,9 @@ Section Analysis.
         | inr named =>
           match ana g (named, Some c) R with
           | inl e => inl e
-          | inr (x, R') => inr (inters ++ [fi_set_path x p], loads, R')
+          | inr (x, R') =>
+            (* the kept path can be loaded later in the same evaluation *)
+            inr (inters ++ [fi_set_path x p], loads, rupdate p (fi_sig x) R')
           end
         end
       end
